@@ -15,7 +15,7 @@ from exo.libs.externs import *
 from exo.platforms.x86 import *
 from exo.stdlib.scheduling import *
 from exo.API import compile_procs_to_strings
-from c18_worker import rec, compile_unit
+from c18_worker import rec, compile_unit, exc_class
 
 old_split = repeat(divide_loop)
 old_unroll = repeat(unroll_loop)
@@ -286,6 +286,20 @@ def bar(x: f32[4], y: f32[4], a: i8[4], b: ui8[4]):
 compile_unit("compile", [bar])
 ''', tags=["known:compile:externs-same-key-order"])
 
+
+# whether Z3 answers or says `unknown` depends on the Sym ids in the query (known finding)
+add("z3_unknown_probe", '''
+@proc
+def carried(n: size, x: f32[n + 1]):
+    for i in seq(0, n):
+        x[i + 1] = x[i] + 1.0
+
+p = divide_loop(carried, "i", 2, ["io", "ii"], tail="cut"); rec("divide_loop", p)
+try:
+    p = reorder_loops(p, "io ii"); rec("reorder_loops", p)
+except Exception as e:
+    rec("reorder_loops", "EXC:" + exc_class(type(e).__name__, str(e)))
+''', tags=["smt"])
 
 # two procedures of one name reached through the set of callees: compile_to_strings must raise
 # (on a tree without the duplicate check the tie is broken by set order)
